@@ -34,8 +34,8 @@ m = {
     "version": 1,
     "setup_cmd": "cd /verif/harness && CARGO_NET_OFFLINE=true cargo build --release --offline",
     "hooks": {
-        "guard": "--cfg elementsproject_rust_elements_verif (rustc cfg flag, set in /verif/harness/.cargo/config.toml)",
-        "enable": "the harness crate depends on /repo by path and builds it with RUSTFLAGS --cfg elementsproject_rust_elements_verif into /verif/.build",
+        "guard": "--cfg elementsproject_rust_elements_verif (rustc cfg flag)",
+        "enable": "no check needs a hook any more: the harness crate depends on /repo by path and builds it WITHOUT the cfg flag into /verif/.build (so a refactoring of private fields can never break the harness build). The single read-only hook H1 (SighashCache::verif_cache_fill, commit below) is still in /repo behind the guard but is not compiled by any check; C13 observes the cache through its public derived Debug impl instead (DESIGN.md section 6).",
         "baseline_off_cmd": "cd /repo && cargo test --workspace --no-fail-fast --offline",
         "source_commits": HOOK_COMMITS,
         "add_only": True,
